@@ -116,6 +116,12 @@ func findLoops(w *World, fn *ssa.Function) map[*ssa.BasicBlock]*loopInfo {
 	sort.Slice(hs, func(i, j int) bool { return hs[i].Index < hs[j].Index })
 	for i, h := range hs {
 		loops[h].ord = i + 1
+		var blocks []*ssa.BasicBlock
+		for b := range loops[h].body {
+			blocks = append(blocks, b)
+		}
+		sort.Slice(blocks, func(a, b int) bool { return blocks[a].Index < blocks[b].Index })
+		loops[h].writes = w.blockWrites(fn, blocks)
 	}
 	return loops
 }
@@ -273,7 +279,59 @@ func (ex *Exec) execBlock(fr *Frame, b *ssa.BasicBlock, st *State, pred *ssa.Bas
 		}
 		ex.loopClauses(fr, li, st, "inv-init", false)
 		// havoc loop-modified state (heaps first: the loop-carried values are bounded by the new allocation counter)
+		// local variables living in cells that the loop body never stores to keep their content:
+		// only this function (and closures it has not called) can reach them
+		type keep struct{ heap, ref, val string }
+		var keeps []keep
+		stored := map[ssa.Value]bool{}
+		unknownStore := false
+		for blk := range li.body {
+			for _, in := range blk.Instrs {
+				if sto, ok := in.(*ssa.Store); ok {
+					switch a := sto.Addr.(type) {
+					case *ssa.Alloc:
+						stored[a] = true
+					case *ssa.FieldAddr, *ssa.IndexAddr:
+					default:
+						_ = a
+						unknownStore = true
+					}
+				}
+			}
+		}
+		if !unknownStore {
+			for v, sv := range st.vals {
+				al, ok := v.(*ssa.Alloc)
+				if !ok || sv.Loc == nil || stored[al] || al.Parent() != fr.fn {
+					continue
+				}
+				keeps = append(keeps, keep{sv.Loc.Heap, sv.Loc.Ref, ex.loadLoc(st, sv.Loc)})
+			}
+		}
+		var localRefs []string
+		for v, sv := range st.vals {
+			if al, ok := v.(*ssa.Alloc); ok && al.Parent() == fr.fn {
+				if sv.Loc != nil {
+					localRefs = append(localRefs, sv.Loc.Ref)
+				} else if sv.T != "" {
+					localRefs = append(localRefs, sv.T)
+				}
+			}
+		}
+		sort.Strings(localRefs)
 		ex.havocLoop(st, li.writes)
+		if li.writes[ex.w.ghostHeap("G_mine")] {
+			// locals allocated by this function stay owned: only pool objects are ever released
+			mh := ex.heapTerm(st, ex.w.ghostHeap("G_mine"))
+			for _, r := range localRefs {
+				st.assume(sel(mh, r))
+			}
+		}
+		for _, k := range keeps {
+			if li.writes[k.heap] {
+				st.assume(eq(sel(ex.heapTerm(st, k.heap), k.ref), k.val))
+			}
+		}
 		var lenTerm string
 		if len(b.Instrs) > 0 {
 			if iff, ok := b.Instrs[len(b.Instrs)-1].(*ssa.If); ok {
@@ -310,6 +368,14 @@ func (ex *Exec) execBlock(fr *Frame, b *ssa.BasicBlock, st *State, pred *ssa.Bas
 		}
 		st.inLoop[b] = true
 		ex.assumeLoopInvariants(fr, li, st)
+		if ex.opts != nil && ex.opts.Vacuity {
+			// the havocked loop state together with the invariants must be satisfiable
+			n0 := len(ex.obls)
+			ex.oblige(fr, st, "vacuity", fmt.Sprintf("loop%d", li.ord), token.NoPos, "false")
+			if len(ex.obls) > n0 {
+				ex.obls[len(ex.obls)-1].MustFail = true
+			}
+		}
 	}
 	ex.execInstrs(fr, b, len(phis), st)
 }
